@@ -16,7 +16,7 @@ ID = 'C07'
 COQ_DIR = 'C07'
 MODEL_FILES = ('InstQ.v',)
 PROPS_FILES = ('Props.v',)
-COQ_HEADER = 'From V Require Import Common.Num C07.Model C07.InstQ.\nOpen Scope Q_scope.'
+COQ_HEADER = 'From V Require Import Common.Num C07.Model C07.Rewire C07.InstQ.\nOpen Scope Q_scope.'
 RULE = ('chem cases: one real Chemical per case in one of 15 configurations (Cn PhaseHandle / phase-locked at s,l,g / no handle) x '
         'phase_ref s,l,g, data Tm,Tb,Hfus,Sfus,S0 drawn from dyadic alphabets including None and 0.0, Hvap handle present / '
         'falsy / returning None or 0, per-phase Cn handles truthy or falsy; 4-9 queries H|S(phase in s,l,g,S,L; T in T_ref,Tm,Tb,'
@@ -64,7 +64,8 @@ def translate():
     i2 = ie.run(vf.REPO, out_dir, meta)
     i3 = mm.run(vf.REPO, out_dir)
     i4 = importlib.import_module('C07_init_data').run(vf.REPO, out_dir)
-    return [i1, i2, i3, i4]
+    i5 = importlib.import_module('C07_rewire').run(vf.REPO, out_dir)
+    return [i1, i2, i3, i4, i5]
 
 
 # ---------------------------------------------------------------------------------------------- environment
@@ -248,6 +249,138 @@ def run_init_data(case):
             'Sfus': ['err', err] if err else (['none'] if c._Sfus is None else ['ok', fr_json(frac(c._Sfus))])}
 
 
+# ---------------------------------------------------------------------------------------------- histories
+class harvest_integrals:
+    """records (constant of the handle, a, b) -> value of every integral the real heat-capacity handles compute"""
+    def __init__(self, rec):
+        self.rec = rec
+    def __enter__(self):
+        import thermo.heat_capacity as hc
+        self.saved = []
+        rec = self.rec
+        for cls in (hc.HeatCapacitySolid, hc.HeatCapacityLiquid, hc.HeatCapacityGas):
+            for name, key in (('T_dependent_property_integral', 'I'), ('T_dependent_property_integral_over_T', 'J')):
+                orig = getattr(cls, name)
+                self.saved.append((cls, name, cls.__dict__.get(name)))
+                def wrapped(self_, a, b, _orig=orig, _key=key):
+                    r = _orig(self_, a, b)
+                    rec[_key][(float(self_(300.)), float(a), float(b))] = float(r)
+                    return r
+                setattr(cls, name, wrapped)
+    def __exit__(self, *a):
+        for cls, name, own in self.saved:
+            if own is None: delattr(cls, name)
+            else: setattr(cls, name, own)
+
+
+def select_const(handle, alphabet, v):
+    """give the handle one named constant method per value of the alphabet (once) and select the one for v.
+    Selection (`handle.method = name`) is per object; thermosteam's TDependentProperty.copy shares the dict of
+    user methods between copies, so the methods themselves are never redefined after construction."""
+    if not getattr(handle, '_c07_methods', False):
+        for k, x in enumerate(alphabet):
+            handle.add_method(x, name=f'K{k}')
+        handle._c07_methods = True
+    handle.method = f'K{alphabet.index(v)}'
+
+
+def build_hist_chem(spec):
+    e = env(); tmo = e['tmo']
+    e['n'] += 1
+    c = tmo.Chemical(f'C07h{e["n"]}_', cache=False, search_db=False, MW=16., Hf=0., S0=spec['S0'], Tm=spec['Tm'], Tb=spec['Tb'],
+                     Hfus=spec['Hfus'], Sfus=spec['Sfus'], phase_ref=spec['pr'])
+    for ph, v in zip('slg', spec['cn']):
+        select_const(getattr(c.Cn, ph), HCN, v)
+    if spec['hv'] is not None:
+        select_const(c.Hvap, HHV, spec['hv'])
+    c.reset_free_energies()
+    return c
+
+
+def apply_hist_op(store, o):
+    e = env()
+    name = o[0]
+    c = store[o[1]]
+    if name == 'reset': c.reset_free_energies()
+    elif name == 'copy':
+        e['n'] += 1
+        store.append(c.copy(f'C07h{e["n"]}_'))
+    elif name == 'mutcn':
+        if c.locked_state: select_const(c.Cn, HCN, o[2]['slg'.index(c.locked_state)])
+        else:
+            for ph, v in zip('slg', o[2]): select_const(getattr(c.Cn, ph), HCN, v)
+        c.reset_free_energies()
+    elif name == 'muthv':
+        select_const(c.Hvap, HHV, o[2]); c.reset_free_energies()
+    elif name == 'copymodels': c.copy_models_from(store[o[2]], list(o[3]))
+    elif name == 'atstate': c.at_state(o[2])
+    elif name == 'setpr': c.phase_ref = o[2]
+    elif name == 'setsc': setattr(c, o[2], o[3])
+    else: raise ValueError(name)
+
+
+def run_hist(case):
+    rec = {'I': {}, 'J': {}}
+    with harvest_integrals(rec):
+        store = [build_hist_chem(s) for s in case['chems']]
+        oks = []
+        for o in case['ops']:
+            try:
+                apply_hist_op(store, o); oks.append(True)
+            except (TypeError, ValueError, AttributeError, RuntimeError) as ex:
+                oks.append(type(ex).__name__)
+        vals = []
+        for c in store:
+            hH, hS = handle_of(c, 'H'), handle_of(c, 'S')
+            vals.append([observe(hH if fn == 'H' else hS, ph, T, P) for fn, ph, T, P in case['queries']])
+    tdp = getattr(sys.modules['thermosteam._chemical'], 'TDependentProperty', None)
+    if tdp is not None: tdp.RAISE_PROPERTY_CALCULATION_ERROR = True
+    return {'oks': oks, 'hvals': vals, 'vals': [v for row in vals for v in row],
+            'tabI': [[list(k), v] for k, v in sorted(rec['I'].items())], 'tabJ': [[list(k), v] for k, v in sorted(rec['J'].items())]}
+
+
+HCN = [24., 64., 32., 128., 75.5, 40.]
+HHV = [40650., 6010.5, 1000., 30000.]
+
+
+def gen_hist(rng):
+    def hspec():
+        return {'pr': rng.choice('slg'), 'Tm': rng.choice(TMS), 'Tb': rng.choice(TBS), 'Hfus': rng.choice(VALS[1:6]),
+                'Sfus': rng.choice(VALS[3:7]), 'S0': rng.choice(VALS[:7]), 'cn': [rng.choice(HCN) for _ in range(3)],
+                'hv': rng.choice(HHV + [None]) if rng.random() < 0.85 else None}
+    chems = [hspec() for _ in range(rng.randint(1, 2))]
+    n = len(chems)
+    locked = [False] * n
+    ops = []
+    for _ in range(rng.randint(2, 7)):
+        r = rng.random()
+        i = rng.randrange(n)
+        if r < 0.22:
+            ops.append(['copy', i]); n += 1; locked.append(locked[i])
+        elif r < 0.42:
+            ops.append(['mutcn', i, [rng.choice(HCN) for _ in range(3)]])
+        elif r < 0.5:
+            ops.append(['muthv', i, rng.choice(HHV)])
+        elif r < 0.7 and n >= 2:
+            j = rng.choice([k for k in range(n) if k != i])
+            names = rng.choice([['Hvap'], ['Cn'], ['Cn', 'Hvap'], ['Psat'], ['Hvap', 'Psat'], ['sigma']])
+            if (locked[i] or locked[j]) and 'Cn' in names: names = ['Hvap']
+            ops.append(['copymodels', i, j, names])
+        elif r < 0.76:
+            ph = rng.choice('slg'); ops.append(['atstate', i, ph]); locked[i] = locked[i] or True
+        elif r < 0.84:
+            ops.append(['setpr', i, rng.choice('slg')])
+        elif r < 0.96:
+            w = rng.choice(['Tm', 'Tb', 'Hfus', 'Sfus'])
+            ops.append(['setsc', i, w, rng.choice(TMS if w == 'Tm' else TBS if w == 'Tb' else VALS[1:7])])
+        else:
+            ops.append(['reset', i])
+    qs = []
+    for _ in range(rng.randint(3, 5)):
+        qs.append([rng.choice('HS'), rng.choice('slg'), rng.choice([T_REF] + TS[:4] + TBS[:2]), rng.choice(PS[:4])])
+    return {'type': 'hist', 'chems': chems, 'ops': ops, 'queries': qs, 'ln': [0., 1.]}
+
+
 # ---------------------------------------------------------------------------------------------- generators
 TMS = [200., 273.25, 150.5, 250.]
 TBS = [350., 373.125, 400.5, 512.]
@@ -325,7 +458,11 @@ def gen_cases(rng, tier):
     for k in range(n):
         r = rng.random()
         ln = gen_ln(rng)
-        if r < 0.1:
+        if r < 0.06 or k < 12:
+            c = gen_hist(rng); c['ln'] = ln
+            cases.append(c)
+            continue
+        if r < 0.16:
             cases.append({'type': 'sfus', 'Hfus': rng.choice([None, None, 0., 6010., 1000.5, -8.]), 'Tm': rng.choice([None, None, 0., 273.25, 150.]),
                           'db_Hfus': rng.choice([None, 0., 6010., 2.5]), 'db_Tm': rng.choice([None, 0., 273.25, 200.]), 'ln': ln})
             continue
@@ -382,6 +519,9 @@ def run_impl(case):
         out = run_init_data(case)
         out['vals'] = [out['Sfus']]
         return out
+    if case['type'] == 'hist':
+        with patched_log(case['ln']):
+            return run_hist(case)
     with patched_log(case['ln']):
         if case['type'] == 'chem':
             c, rec, err = build_chem(case['chem'])
@@ -462,6 +602,8 @@ def coq_case(case, out):
         def so(x):
             return 'None' if x is None else f'(Some {q(F(x))})'
         return f'(sfus_case {qo(case["Hfus"])} {qo(case["Tm"])} {so(out["stored_Hfus"])} {so(out["stored_Tm"])} {cpyv(out["Sfus"])})'
+    if case['type'] == 'hist':
+        return coq_hist(case, out, lnc, lnd)
     if case['type'] == 'chem':
         qs = clist([f'(Q{fn} {PHC[ph]} {qo(T)} {qo(P)})' for fn, ph, T, P in case['queries']])
         return (f'(chem_case {lnc} {lnd} {cchem(case["chem"], out["rec"])} {qs} '
@@ -493,6 +635,34 @@ def coq_case(case, out):
     return f'(pyvs_approxb {clist(terms)} {exp})'
 
 
+MN = {'Cn': 'MCn', 'Hvap': 'MHvap'}
+
+
+def coq_hist(case, out, lnc, lnd):
+    def cc(v):
+        return f'({qo(v[0])}, {qo(v[1])}, {qo(v[2])})'
+    def tab(t):
+        return clist([f'({q(k[0])}, {q(k[1])}, {q(k[2])}, {q(v)})' for k, v in t])
+    specs = clist([f'({PHC[s["pr"]]}, mkSc {qo(s["Tm"])} {qo(s["Tb"])} {qo(s["Hfus"])} {qo(s["Sfus"])} {qo(s["S0"])}, {qo(s["hv"])}, {cc(s["cn"])})'
+                   for s in case['chems']])
+    ops = []
+    for o, ok in zip(case['ops'], out['oks']):
+        if ok is not True:
+            continue            # the call raised: no state change is expected
+        n, i = o[0], f'{o[1]}%nat'
+        if n == 'reset': ops.append(f'(OReset _ _ _ {i})')
+        elif n == 'copy': ops.append(f'(OCopy _ _ _ {i})')
+        elif n == 'mutcn': ops.append(f'(OMutCn _ _ _ {i} {cc(o[2])})')
+        elif n == 'muthv': ops.append(f'(OMutHv _ _ _ {i} {qo(o[2])})')
+        elif n == 'copymodels': ops.append(f'(OCopyModels _ _ _ {i} {o[2]}%nat {clist([MN.get(x, "MOther") for x in o[3]])})')
+        elif n == 'atstate': ops.append(f'(OAtState _ _ _ {i} {PHC[o[2]]})')
+        elif n == 'setpr': ops.append(f'(OSetPr _ _ _ {i} {PHC[o[2]]})')
+        elif n == 'setsc': ops.append(f'(OSetSc _ _ _ {i} W{o[2]} (set_{o[2]} {q(o[3])}))')
+    qs = clist([f'(Q{fn} {PHC[ph]} {qo(T)} {qo(P)})' for fn, ph, T, P in case['queries']])
+    exp = clist([clist([cpyv(v) for v in row]) for row in out['hvals']])
+    return f'(hist_case {lnc} {lnd} {tab(out["tabI"])} {tab(out["tabJ"])} {specs} ({clist(ops)} : list hop) {qs} {exp})'
+
+
 def coq_show(case, out):
     lnc, lnd = (q(x) for x in case['ln'])
     if case['type'] == 'chem':
@@ -508,6 +678,10 @@ def nontrivial(case, out):
 
 def classify(case, out):
     ks = ['type:' + case['type']]
+    if case['type'] == 'hist':
+        for o, ok in zip(case['ops'], out.get('oks', [])):
+            ks.append(f'hist-op:{o[0]}:' + ('ok' if ok is True else str(ok)))
+        return ks
     specs = [case['chem']] if case['type'] == 'chem' else case.get('chems', [])
     for s in specs:
         ks.append(f'config:{s["kind"]}{"-" + s["sp"] if s["sp"] else ""}/ref-{s["pr"]}')
@@ -601,6 +775,75 @@ def oracle_locked(spec, Ts, Ps):
     return None
 
 
+def oracle_hist(case):
+    """after the history, every chemical's H / S must be consistent with ITS OWN current Cn, Hvap, Tm, Tb, Hfus, Sfus, S0"""
+    store = [build_hist_chem(s) for s in case['chems']]
+    for o in case['ops']:
+        try: apply_hist_op(store, o)
+        except (TypeError, ValueError, AttributeError, RuntimeError): pass
+    P = P_REF
+    for k, c in enumerate(store):
+        tag = f'[chemical #{k} after {[o[0] for o in case["ops"]]}]'
+        locked, pr = c.locked_state, c.phase_ref
+        if locked:
+            H, S, Cn = (lambda ph, T, P: c.H(T, P)), (lambda ph, T, P: c.S(T, P)), (lambda ph, T: c.Cn(T))
+            phases = [locked]
+        else:
+            H, S, Cn = c.H, c.S, c.Cn
+            phases = 'slg'
+        complete_ = bool(c.Hvap) and c.Tm and c.Tb and c.Hvap(c.Tb)
+        for ph in phases:
+            if not locked and not complete_ and ph != pr: continue
+            for T in (300., 350.):
+                h = 0.25
+                try:
+                    dH = (H(ph, T + h, P) - H(ph, T - h, P)) / (2 * h); dS = (S(ph, T + h, P) - S(ph, T - h, P)) / (2 * h)
+                except TypeError as ex:
+                    return f'wiring_not_own{tag}: H/S({ph}) raises {ex} although the data are complete'
+                if not close(dH, Cn(ph, T), 1e-6): return f'wiring_not_own{tag}: dH/dT({ph},{T}) = {dH} but its own Cn = {Cn(ph, T)}'
+                if not close(dS, Cn(ph, T) / T, 1e-5): return f'wiring_not_own{tag}: dS/dT({ph},{T}) = {dS} but its own Cn/T = {Cn(ph, T) / T}'
+        refph = locked or pr
+        if not close(H(refph, T_REF, P), 0.): return f'wiring_not_own{tag}: H at the reference state = {H(refph, T_REF, P)}'
+        if not close(S(refph, T_REF, P), c.S0): return f'wiring_not_own{tag}: S at the reference state = {S(refph, T_REF, P)} != S0 = {c.S0}'
+        if not locked and complete_:
+            Tb, Tm, hv = c.Tb, c.Tm, c.Hvap(c.Tb)
+            if not close(H('g', Tb, P) - H('l', Tb, P), hv): return f'wiring_not_own{tag}: H(g,Tb) - H(l,Tb) = {H("g", Tb, P) - H("l", Tb, P)} but its own Hvap(Tb) = {hv}'
+            if not close(S('g', Tb, P) - S('l', Tb, P), hv / Tb): return f'wiring_not_own{tag}: S(g,Tb) - S(l,Tb) = {S("g", Tb, P) - S("l", Tb, P)} but its own Hvap(Tb)/Tb = {hv / Tb}'
+            if not close(H('l', Tm, P) - H('s', Tm, P), c.Hfus): return f'wiring_not_own{tag}: H(l,Tm) - H(s,Tm) = {H("l", Tm, P) - H("s", Tm, P)} but its own Hfus = {c.Hfus}'
+            if not close(S('l', Tm, P) - S('s', Tm, P), c.Sfus): return f'wiring_not_own{tag}: S(l,Tm) - S(s,Tm) = {S("l", Tm, P) - S("s", Tm, P)} but its own Sfus = {c.Sfus}'
+    return None
+
+
+def oracle_mix_pressure(specs):
+    """mixtures containing phase-locked chemicals, in a phase of the other kind, at P != P_ref:
+    S_mix - sum n_i S_i must not depend on P (the mixing term depends on composition only), and
+    S_mix falls by R ln(P2/P1) per mole of gas-like component"""
+    e = env(); tmo = e['tmo']
+    base = specs[0]
+    chems = [build_chem(dict(base, kind='handle', sp=None), analytic=True)[0],
+             build_chem(dict(base, kind='locked', sp='g', pr='g'), analytic=True)[0],
+             build_chem(dict(base, kind='locked', sp='s', pr='s'), analytic=True)[0],
+             build_chem(dict(base, kind='locked', sp='l', pr='l'), analytic=True)[0]]
+    mix = tmo.IdealMixture.from_chemicals(chems)
+    def pure(c, ph, T, P):
+        return c.S(T, P) if c.locked_state else c.S(ph, T, P)
+    for phase in 'lgs':
+        for mol in ([1., 2., 0.5, 0.25], [0., 1., 1., 0.], [2., 0., 0., 1.]):
+            T = 350.
+            def D(P):
+                return mix.S(phase, mol, T, P) - sum(n * pure(c, phase, T, P) for n, c in zip(mol, chems) if n)
+            for Px in (2 * P_REF, P_REF / 4):
+                if not close(D(Px), D(P_REF)):
+                    return (f'mix_entropy_pressure: phase {phase!r}, mol={mol} (flexible, locked gas, locked solid, locked liquid): '
+                            f'S_mix - sum n_i S_i = {D(Px)} at P={Px} but {D(P_REF)} at P_ref')
+                ngas = sum(n for n, c in zip(mol, chems) if (c.locked_state or phase) == 'g')
+                d = mix.S(phase, mol, T, Px) - mix.S(phase, mol, T, P_REF)
+                if not close(d, -R_GAS * ngas * math.log(Px / P_REF)):
+                    return (f'mix_entropy_pressure: phase {phase!r}, mol={mol}: S_mix(P={Px}) - S_mix(P_ref) = {d}, expected '
+                            f'-R n_gas ln(P/P_ref) = {-R_GAS * ngas * math.log(Px / P_REF)}')
+    return None
+
+
 def oracle_mix(specs, mols, phase, T, P):
     e = env(); tmo = e['tmo']
     chems = [build_chem(s, analytic=True)[0] for s in specs]
@@ -648,10 +891,14 @@ def oracle(case):
         for s in specs:
             msg = oracle_chem(s, [300., 350.], [P_REF, 2 * P_REF])
             if msg: return msg
+        msg = oracle_mix_pressure(specs)
+        if msg: return msg
         mols = [o[2] for o in case['obs'] if o[0] in ('H', 'S', 'Cn')] + [[1., 0.] + [0.] * (len(specs) - 2), [0., 1.] + [0.] * (len(specs) - 2)]
         return oracle_mix(specs, mols[:4], 'l', 350., P_REF)
     if case['type'] == 'db':
         return oracle_db(case)
+    if case['type'] == 'hist':
+        return oracle_hist(case)
     if case['type'] == 'sfus':
         out = run_init_data(case)
         if out['stored_Hfus'] is not None and out['stored_Tm'] is not None and F(out['stored_Tm']) != 0:
@@ -688,6 +935,15 @@ def oracle_db(case):
 
 def search_cases(rng, tier):
     out = [{'type': 'db', 'ID': 'Water', 'phase_ref': None}, {'type': 'db', 'ID': 'Ethanol', 'phase_ref': 'g'}]
+    a = {'pr': 'l', 'Tm': 200., 'Tb': 350., 'Hfus': 1000., 'Sfus': 5., 'S0': 12.25, 'cn': [24., 64., 32.], 'hv': 40650.}
+    b = dict(a, cn=[40., 128., 75.5], hv=6010.5, pr='g')
+    qs = [['H', 'l', 300., P_REF]]
+    out += [{'type': 'hist', 'chems': [a], 'ops': [['copy', 0], ['mutcn', 0, [40., 128., 75.5]]], 'queries': qs, 'ln': [0., 1.]},
+            {'type': 'hist', 'chems': [a, b], 'ops': [['copymodels', 0, 1, ['Hvap']]], 'queries': qs, 'ln': [0., 1.]},
+            {'type': 'hist', 'chems': [dict(a, hv=None), b], 'ops': [['copymodels', 0, 1, ['Hvap', 'Psat']]], 'queries': qs, 'ln': [0., 1.]},
+            {'type': 'hist', 'chems': [a, b], 'ops': [['copymodels', 0, 1, ['Cn']], ['setsc', 0, 'Tb', 400.5], ['atstate', 1, 'g'], ['setpr', 0, 's']], 'queries': qs, 'ln': [0., 1.]}]
+    for k in range(20 if tier == 'quick' else 200):
+        out.append(gen_hist(rng))
     for k in range(40 if tier == 'quick' else 400):
         spec = gen_spec(rng, complete=True)
         spec['kind'], spec['sp'] = 'handle', None
